@@ -60,6 +60,23 @@ def mk_domain(sd):
         return pyPRISM.Domain(length=sd['dom'][0], dk=math.pi / (sd['dom'][1] * sd['dom'][0]))
     return pyPRISM.Domain(length=sd['dom'][0], dr=sd['dom'][1])
 
+def fresh(t):
+    """an equal but NOT identical key object (labels parsed from a file, built with 'bead%d' % i ...)"""
+    return (t + ' ')[:-1] if isinstance(t, str) else t
+
+def scramble(obj):
+    """the CALLER's object after it was assigned into a table: re-used for the next pair / the next study with other parameters.
+    The table holds its own deep copy, so nothing of this may reach the System"""
+    for attr in ('epsilon', 'alpha', 'high_value', 'rcut', 'sigma', 'length', 'N', 'l', 'lp'):
+        v = getattr(obj, attr, None)
+        if isinstance(v, (int, float)) and not isinstance(v, bool):
+            try: setattr(obj, attr, type(v)(v * 3 + 1))
+            except Exception: pass
+    for attr in ('value', 'k'):
+        v = getattr(obj, attr, None)
+        if isinstance(v, np.ndarray) and v.dtype.kind == 'f' and v.flags.writeable:
+            v[...] = -31.0
+
 def build_system(sd, types=None):
     n = sd['n']; types = list(types) if types is not None else TYPES[:n]
     if sd.get('kT_assign'):
@@ -74,11 +91,11 @@ def build_system(sd, types=None):
     grp = [t for t, v in enumerate(sd['dens']) if v is not None and v == sd['dens'][0]] if sd.get('dens_group') else []
     for t in (sd.get('dens_order') or range(n)):
         v = sd['dens'][t]
-        if v is not None and t not in grp[1:]: s.density[types[t]] = v
+        if v is not None and t not in grp[1:]: s.density[fresh(types[t])] = v
     if len(grp) >= 2: s.density[[types[t] for t in grp]] = sd['dens'][0]          # several types in ONE statement, as the last density assignment
     order = sd.get('diam_order') or list(range(n))
     for t in order:                                   # any assignment order, a type may be assigned again (the last value counts)
-        if sd['diam'][t] is not None: s.diameter[types[t]] = sd['diam'][t]
+        if sd['diam'][t] is not None: s.diameter[fresh(types[t])] = sd['diam'][t]
     for t, v in enumerate(sd['diam']):
         if v is not None and t not in order: s.diameter[types[t]] = v
     prs = [sd['pairs'].get('%d%d' % (i, j), {}) for (i, j) in pairs_of(n)]
@@ -86,7 +103,7 @@ def build_system(sd, types=None):
         specs = [pr.get(key) for pr in prs]
         if sd.get('group') and n >= 2 and specs[0] is not None and all(sp == specs[0] for sp in specs):
             # tutorial style: ONE object assigned to all pairs in one statement
-            table[types, types] = mk(specs[0])
+            o_ = mk(specs[0]); table[types, types] = o_; scramble(o_)
         elif sd.get('share'):
             # ONE Python object per distinct specification, assigned pair by pair (U = HardSphere(); for a, b in pairs: sys.potential[a, b] = U)
             made = {}
@@ -95,17 +112,18 @@ def build_system(sd, types=None):
                 key = json.dumps(sp)
                 if key not in made: made[key] = mk(sp)
                 table[types[i], types[j]] = made[key]
+            for o_ in made.values(): scramble(o_)
         elif sd.get('setunset') and n >= 2 and specs[-1] is not None:
             # every pair that differs from the last specification is assigned explicitly, the rest is filled by setUnset
             for (i, j), sp in zip(pairs_of(n), specs):
-                if sp is not None and sp != specs[-1]: table[types[i], types[j]] = mk(sp)
-            if all(sp is not None for sp in specs): table.setUnset(mk(specs[-1]))
+                if sp is not None and sp != specs[-1]: o_ = mk(sp); table[types[i], types[j]] = o_; scramble(o_)
+            if all(sp is not None for sp in specs): o_ = mk(specs[-1]); table.setUnset(o_); scramble(o_)
             else:
                 for (i, j), sp in zip(pairs_of(n), specs):
                     if sp is not None and sp == specs[-1]: table[types[i], types[j]] = mk(sp)
         else:
             for (i, j), sp in zip(pairs_of(n), specs):
-                if sp is not None: table[types[i], types[j]] = mk(sp)
+                if sp is not None: o_ = mk(sp); table[fresh(types[i]), fresh(types[j])] = o_; scramble(o_)
     return s
 
 def eff_dr(sd):
